@@ -1,7 +1,7 @@
     requires old(self).wf(), batch_size == items@.len(), items@.len() <= 0xffff_ffff, items_within_limits(items@),
         payload(ops_of(items@), items@.len() as int, old(self).compression, old(self).compression_threshold).len() < 0x7fff_ffff_ffff_ff00, // stated bound: batch shorter than 2^63 bytes
     ensures
-        final(self).wf(), // [C09:wf] [C02:wf-dirty-flag-makes-persist-flush]
+        final(self).wf(), // [C09:wf] [C02:wf-dirty-flag-makes-persist-flush] [C13:wf-dirty-flag-makes-persist-flush]
         final(self).appended(old(self)), // [C02:append-only] [C03:append-only]
         r is Ok && batch_size > 0 ==> final(self).file.logical() == old(self).file.logical()
             + enc_batch(seqno, ops_of(items@), old(self).compression, old(self).compression_threshold), // [C03:batch-framing] [C15:compressor-choice] [C01:journaled-op]
